@@ -63,7 +63,7 @@ package controller
 // separate links: one task per binding per tick) and hands every binding's entry to the schedule
 // manager once, in order.
 //@ func (*scheduleBindingsController).EnableScheduleBindings
-//@   prop C11
+//@   prop C11, C06
 //@   requires c.ScheduleLinks != nil && c.scheduleManager != nil
 //@   requires [assumed:schedule-entry-ids-are-unique] forall(i, 0, len(c.ScheduleBindings), forall(j, 0, len(c.ScheduleBindings), i != j ==> c.ScheduleBindings[i].ScheduleEntry.Id != c.ScheduleBindings[j].ScheduleEntry.Id))
 //@   modifies mapof(c.ScheduleLinks), nSchedAdd, schedAddedId, schedAddedCrontab
@@ -78,8 +78,14 @@ package controller
 //@     invariant forall(k, string, old(has(c.ScheduleLinks, k)) ==> has(c.ScheduleLinks, k))
 
 // C11: disabling removes the link of every schedule binding and withdraws every entry once.
+// C11 / C06: registering the bindings of a hook creates no link: a hook answers a tick only after
+// its schedule bindings were enabled (links are what CanHandleEvent / HandleEvent look at).
+//@ func (*scheduleBindingsController).WithScheduleBindings
+//@   prop C11, C06
+//@   modifies c.ScheduleBindings
+//@   ensures [bindings-registered] c.ScheduleBindings == bindings
 //@ func (*scheduleBindingsController).DisableScheduleBindings
-//@   prop C11
+//@   prop C11, C06
 //@   requires c.ScheduleLinks != nil && c.scheduleManager != nil
 //@   modifies mapof(c.ScheduleLinks), nSchedRemove, schedRemovedId, schedRemovedCrontab
 //@   let n0 := old(nSchedRemove)
